@@ -10,10 +10,14 @@ def main():
     mods = sys.argv[1].split(",")
     keys = sys.argv[2:]
     reg = Registry()
-    for m in mods:
-        importlib.import_module("contracts." + m).register(reg)
+    reg.load(*mods)
     v = Verifier(Repo(), reg, Spec)
-    for key in (keys or list(reg.contracts)):
+    from pyvc.verify import expand_keys
+    allk=[]
+    for pid in sorted({p for c in reg.contracts.values() for p in c.properties}):
+        for k2 in expand_keys(v.repo, reg, pid):
+            if k2 not in allk: allk.append(k2)
+    for key in (keys or allk):
         if key.startswith("attr:"):
             continue
         res, meta = v.verify_function(key)
